@@ -237,6 +237,9 @@ func FieldOf(v ssa.Value) (FieldRef, ssa.Value, bool) {
 }
 
 // LoadedField: if v is `*(&x.f)` (a load of a field) or `x.f` (value field), returns the field.
+// A call of a library accessor that does nothing but return one member of its receiver (possibly under a lock) counts
+// as a load of that member of the receiver argument: introducing or removing an accessor does not change what a rule
+// sees.
 func LoadedField(v ssa.Value) (FieldRef, ssa.Value, bool) {
 	if u, ok := v.(*ssa.UnOp); ok && u.Op == token.MUL {
 		return FieldOf(u.X)
@@ -244,7 +247,73 @@ func LoadedField(v ssa.Value) (FieldRef, ssa.Value, bool) {
 	if f, ok := v.(*ssa.Field); ok {
 		return FieldOf(f)
 	}
+	if call, ok := v.(*ssa.Call); ok {
+		if f, ok := accessorField(call); ok {
+			return f, call.Call.Args[0], true
+		}
+	}
 	return FieldRef{}, nil, false
+}
+
+// LibraryFuncs is filled by Load: the functions whose source is in the library.
+var LibraryFuncs = map[*ssa.Function]bool{}
+
+var accessorCache = map[*ssa.Function]*FieldRef{}
+
+func accessorField(call *ssa.Call) (FieldRef, bool) {
+	sc := call.Call.StaticCallee()
+	if sc == nil || !LibraryFuncs[sc] || sc.Signature.Recv() == nil || len(sc.Params) != 1 || len(call.Call.Args) != 1 || sc.Signature.Results().Len() != 1 {
+		return FieldRef{}, false
+	}
+	if r, ok := accessorCache[sc]; ok {
+		if r == nil {
+			return FieldRef{}, false
+		}
+		return *r, true
+	}
+	accessorCache[sc] = nil
+	var found *FieldRef
+	nRet := 0
+	simple := true
+	for _, b := range sc.Blocks {
+		if b == sc.Recover {
+			continue
+		}
+		for _, in := range b.Instrs {
+			switch x := in.(type) {
+			case *ssa.Return:
+				nRet++
+				res := Results(x)
+				if len(res) != 1 {
+					simple = false
+					continue
+				}
+				if u, ok := res[0].(*ssa.UnOp); ok && u.Op == token.MUL {
+					if f, base, ok := FieldOf(u.X); ok && base == ssa.Value(sc.Params[0]) {
+						ff := f
+						found = &ff
+					}
+				}
+			case *ssa.Store:
+				// storing into the result cell is fine (defer-spilled return); any other store makes it more than an accessor
+				if _, isAlloc := x.Addr.(*ssa.Alloc); !isAlloc {
+					simple = false
+				}
+			case *ssa.Go, *ssa.Send, *ssa.MapUpdate, *ssa.Select:
+				simple = false
+			case *ssa.Call:
+				n := CallName(x)
+				if !strings.HasSuffix(n, "Lock") && !strings.HasSuffix(n, "RLock") {
+					simple = false
+				}
+			}
+		}
+	}
+	if nRet != 1 || !simple || found == nil {
+		return FieldRef{}, false
+	}
+	accessorCache[sc] = found
+	return *found, true
 }
 
 // Path computes a symbolic access path for v inside its function: parameters and free variables
